@@ -14,8 +14,21 @@ MCData == { D("h1", 32, "raw", "h1", 32, {"sha256"}), D("h2", 32, "raw", "h2", 3
             D("s1", 20, "raw", "s1", 20, {"sha1"}), D("u1", 40, "raw", "u1", 40, {"bogus"}) }
 (* reduced universe for the deepest exhaustive bound *)
 MCDataSmall == {x \in MCData : x.id \in {"h1", "h31", "c1", "c3", "p1", "s1", "u1"}}
+Ent(o, id, n) == [owner |-> o, data |-> id, len |-> n]
+Lst(t, size, es) == [type |-> t, listsize |-> 28 + Len(es) * size, hdrsize |-> 0, size |-> size, entries |-> es]
+MCPresets == [ dupA  |-> << Lst("sha256", 48, <<Ent("o1","h1",32), Ent("o1","h1",32), Ent("o2","h2",32)>>) >>,
+               dupB  |-> << Lst("x509", 716, <<Ent("o1","c1",700), Ent("o2","c2",700), Ent("o1","c1",700)>>),
+                            Lst("sha256", 48, <<Ent("o1","h1",32)>>) >>,
+               cross |-> << Lst("sha256", 48, <<Ent("o1","h1",32), Ent("o2","h2",32)>>), Lst("sha256", 48, <<Ent("o1","h1",32)>>) >>,
+               plain |-> << Lst("x509", 716, <<Ent("o1","c1",700)>>), Lst("x509", 916, <<Ent("o2","c3",900)>>),
+                            Lst("sha256", 48, <<Ent("o2","h2",32)>>) >> ]
+ASSUME PrintT(ToJson([presets |-> MCPresets]))
 MCInit == Init /\ hist = <<>>
 MCNext == Len(hist) < Depth /\ Next /\ hist' = Append(hist, last')
+MCNextL == Len(hist) < Depth /\ NextL /\ hist' = Append(hist, last')
+(* every behaviour starts from a loaded database (history emission) *)
+MCNextLoaded == Len(hist) < Depth /\ (IF hist = <<>> THEN \E p \in DOMAIN Presets : DoLoad(p) ELSE Next) /\ hist' = Append(hist, last')
+MCSpecL == MCInit /\ [][MCNextL]_<<vars, hist>>
 MCSpec == MCInit /\ [][MCNext]_<<vars, hist>>
 Emit == Len(hist) = Depth => PrintT(ToJson(hist))
 EmitAny == Len(hist) > 0 => PrintT(ToJson(hist))
